@@ -138,7 +138,7 @@ pub fn gen_msgs_ext(ty: &Ty, t: &mut Tape, max: usize, limit: usize, shrink: boo
     let mut largest = model::min_size(ty);
     let mut has_padding = false;
     for _ in 0..n {
-        let mut fuel = Fuel { elems: 40, max_len: 10 };
+        let mut fuel = Fuel { elems: 40, max_len: 10, overlong: false };
         let v = gen_value(ty, t, &mut fuel);
         let size = model::size_of(ty, &v);
         if size > limit {
